@@ -170,7 +170,7 @@ open Ufo2ft
 /-- **C15 (anchor propagation never overrides)**: after PropagateAnchorsFilter (any include predicate) every glyph has the same
     outline, components and metrics, and its original anchors unchanged and still first; propagated anchors come after them. -/
 theorem C15_propagate_no_override (marks : List String) (incl : String → Bool) (gs : GlyphSet) (st : FState)
-    (h : runFilter (propagateStep marks) incl gs = .ok st) : AnchExt st.gs gs := by
+    (h : runFilter (propagateStep bnd marks) incl gs = .ok st) : AnchExt st.gs gs := by
   unfold runFilter at h
   cases ho : orderedGlyphs gs with
   | error e => rw [ho] at h; cases h
@@ -300,6 +300,8 @@ open Ufo2ft List
 
 /-! ### PropagateAnchorsFilter: placement, completeness, idempotence (proofs in Props/Propagate2.lean) -/
 
+variable {bnd : Comp → Option (Q × Q)}
+
 /-- **C15 (anchor propagation, placement)**: for every acyclic glyph set with distinct keys equal to the glyph names, every
     mark list and every include predicate, `propagateWrong` finds nothing in the filter's output: each glyph keeps outline,
     components, advance and its own anchors (first, unchanged); every ADDED anchor lies at `k.t.apply (ba.x, ba.y)` for a
@@ -307,7 +309,7 @@ open Ufo2ft List
     set; and no added anchor has the name of an anchor the glyph already had. -/
 theorem C15_propagate_placed (marks : List String) (incl : String → Bool) (gs : GlyphSet) (rank : String → Nat) (st : FState)
     (hr : Ranked gs rank) (hn : Named gs) (hnd : gs.names.Nodup)
-    (h : runFilter (propagateStep marks) incl gs = .ok st) : propagateWrong gs st.gs = [] := by
+    (h : runFilter (propagateStep bnd marks) incl gs = .ok st) : propagateWrong gs st.gs = [] := by
   obtain ⟨_, hnames, _⟩ := runFilter_propagate_inv marks incl gs rank st hr hn h
   unfold propagateWrong
   rw [List.map_eq_nil_iff, List.filter_eq_nil_iff]
@@ -338,7 +340,7 @@ theorem C15_propagate_placed (marks : List String) (incl : String → Bool) (gs 
     an own anchor whose name starts with that name or a propagated anchor of that (possibly numbered) name. -/
 theorem C15_propagate_complete (marks : List String) (incl : String → Bool) (gs : GlyphSet) (rank : String → Nat) (st : FState)
     (hr : Ranked gs rank) (hn : Named gs) (hnd : gs.names.Nodup)
-    (h : runFilter (propagateStep marks) incl gs = .ok st) : propagateMissing marks incl gs st.gs = [] := by
+    (h : runFilter (propagateStep bnd marks) incl gs = .ok st) : propagateMissing marks incl gs st.gs = [] := by
   obtain ⟨_, hnames, _⟩ := runFilter_propagate_inv marks incl gs rank st hr hn h
   unfold propagateMissing
   rw [List.map_eq_nil_iff, List.filter_eq_nil_iff]
@@ -379,8 +381,8 @@ theorem C15_propagate_complete (marks : List String) (incl : String → Bool) (g
 /-- **C15 (anchor propagation, idempotence)**: running the filter again on its own output changes nothing and reports
     nothing as modified — numbered ligature anchors included (`top_1` starts with `top`, so `top` is not propagated again). -/
 theorem C15_propagate_idempotent (marks : List String) (incl : String → Bool) (gs : GlyphSet) (rank : String → Nat)
-    (st st2 : FState) (hr : Ranked gs rank) (hn : Named gs) (h : runFilter (propagateStep marks) incl gs = .ok st)
-    (h2 : runFilter (propagateStep marks) incl st.gs = .ok st2) : st2.gs = st.gs ∧ st2.modified = [] :=
+    (st st2 : FState) (hr : Ranked gs rank) (hn : Named gs) (h : runFilter (propagateStep bnd marks) incl gs = .ok st)
+    (h2 : runFilter (propagateStep bnd marks) incl st.gs = .ok st2) : st2.gs = st.gs ∧ st2.modified = [] :=
   propagate_idempotent marks incl gs rank st st2 hr hn h h2
 
 /-- **C15 (anchor propagation)**: on every acyclic glyph set with distinct keys equal to the glyph names, for every mark list
@@ -390,8 +392,8 @@ theorem C15_propagate_idempotent (marks : List String) (incl : String → Bool) 
     and the second run modifies nothing. -/
 theorem C15_propagate (marks : List String) (incl : String → Bool) (gs : GlyphSet) (rank : String → Nat)
     (st st2 : FState) (hr : Ranked gs rank) (hn : Named gs) (hnd : gs.names.Nodup)
-    (h : runFilter (propagateStep marks) incl gs = .ok st)
-    (h2 : runFilter (propagateStep marks) incl st.gs = .ok st2) :
+    (h : runFilter (propagateStep bnd marks) incl gs = .ok st)
+    (h2 : runFilter (propagateStep bnd marks) incl st.gs = .ok st2) :
     holdsPropagate marks incl gs st.gs st2.modified (st2.gs == st.gs) = true := by
   obtain ⟨_, hnames, _⟩ := runFilter_propagate_inv marks incl gs rank st hr hn h
   obtain ⟨i1, i2⟩ := propagate_idempotent marks incl gs rank st st2 hr hn h h2
@@ -405,6 +407,8 @@ theorem C15_propagate (marks : List String) (incl : String → Bool) (gs : Glyph
 `b` receives `top` at 2·(100,500)+(10,20) = (210,1020); `c` receives `top_1` = b's FINAL `top` moved by (100,0) and
 `top_2` = a's `top` halved and moved by (700,0).  The model is evaluated by `simp` on these concrete inputs. -/
 
+/-- no bounds needed: no mark-ligature composite in `gsP` -/
+def bnd0 : Comp → Option (Q × Q) := fun _ => none
 def pA : Glyph := ⟨"a", 500, 0, [], [], [⟨"top", 100, 500⟩]⟩
 def pB : Glyph := ⟨"b", 500, 0, [], [⟨"a", ⟨2, 0, 0, 2, 10, 20⟩⟩], []⟩
 def pC : Glyph := ⟨"c", 900, 0, [], [⟨"b", ⟨1, 0, 0, 1, 100, 0⟩⟩, ⟨"a", ⟨1/2, 0, 0, 1/2, 700, 0⟩⟩], []⟩
@@ -420,12 +424,12 @@ theorem gsP_order : orderedGlyphs gsP = .ok ["c", "b", "a"] := by
   rfl
 
 
-theorem gsP_run : runFilter (propagateStep []) (fun _ => true) gsP =
+theorem gsP_run : runFilter (propagateStep bnd0 []) (fun _ => true) gsP =
     .ok ⟨gsP', ["b", "c"], ["c", "b", "a"]⟩ := by
   unfold runFilter
   rw [gsP_order]
   simp [filterLoop, propagateStep, propagate, propagateComps, gsP, gsP', pA, pB, pC, GlyphSet.get?, alookup, addMod,
-    GlyphSet.set, Affine.apply, getAnchorData, adjustAnchors, adSet, sortStr, isLigatureMark]
+    GlyphSet.set, Affine.apply, getAnchorData, adjustAnchors, adSet, sortStr, promoteSplit, isLigatureMark]
   have e1 : toString "top" ++ toString "_" ++ Nat.repr 1 = "top_1" := by decide +kernel
   have e2 : toString "top" ++ toString "_" ++ Nat.repr 2 = "top_2" := by decide +kernel
   rw [e1, e2]
@@ -439,12 +443,12 @@ theorem gsP'_order : orderedGlyphs gsP' = .ok ["c", "b", "a"] := by
   rw [List.mergeSort_of_pairwise (by simp)]
   rfl
 
-theorem gsP_run2 : runFilter (propagateStep []) (fun _ => true) gsP' = .ok ⟨gsP', [], ["c", "b", "a"]⟩ := by
+theorem gsP_run2 : runFilter (propagateStep bnd0 []) (fun _ => true) gsP' = .ok ⟨gsP', [], ["c", "b", "a"]⟩ := by
   unfold runFilter
   rw [gsP'_order]
   have s2 : ("top".startsWith "_") = false := by decide +kernel
   simp [filterLoop, propagateStep, propagate, propagateComps, gsP', pA, pB, pC, GlyphSet.get?, alookup, addMod,
-    Affine.apply, getAnchorData, adjustAnchors, adSet, sortStr, isLigatureMark, s2]
+    Affine.apply, getAnchorData, adjustAnchors, adSet, sortStr, promoteSplit, isLigatureMark, s2]
 
 theorem gsP_cases {P : String → Glyph → Prop} (n : String) (g : Glyph) (h : gsP.get? n = some g)
     (hc : P "c" pC) (hb : P "b" pB) (ha : P "a" pA) : P n g := by
@@ -474,18 +478,188 @@ theorem gsP_named : Named gsP := by
 
 /-- non-vacuity of `C15_propagate_placed` and `C15_propagate_complete`: their hypotheses hold of `gsP`, the run succeeds
     and modifies `b` and `c` -/
-example : ∃ st, runFilter (propagateStep []) (fun _ => true) gsP = .ok st ∧ st.modified = ["b", "c"] ∧
+example : ∃ st, runFilter (propagateStep bnd0 []) (fun _ => true) gsP = .ok st ∧ st.modified = ["b", "c"] ∧
     propagateWrong gsP st.gs = [] ∧ propagateMissing [] (fun _ => true) gsP st.gs = [] :=
   ⟨_, gsP_run, rfl, C15_propagate_placed [] _ gsP rankP _ gsP_ranked gsP_named (by decide) gsP_run,
     C15_propagate_complete [] _ gsP rankP _ gsP_ranked gsP_named (by decide) gsP_run⟩
 
 /-- non-vacuity of `C15_propagate_idempotent` and `C15_propagate`: both runs succeed on `gsP` (the second one on a glyph
     set that has the numbered anchors `top_1`, `top_2`), and the whole predicate holds -/
-example : ∃ st st2, runFilter (propagateStep []) (fun _ => true) gsP = .ok st ∧
-    runFilter (propagateStep []) (fun _ => true) st.gs = .ok st2 ∧ st2.gs = st.gs ∧ st2.modified = [] ∧
+example : ∃ st st2, runFilter (propagateStep bnd0 []) (fun _ => true) gsP = .ok st ∧
+    runFilter (propagateStep bnd0 []) (fun _ => true) st.gs = .ok st2 ∧ st2.gs = st.gs ∧ st2.modified = [] ∧
     holdsPropagate [] (fun _ => true) gsP st.gs st2.modified (st2.gs == st.gs) = true :=
   ⟨_, _, gsP_run, gsP_run2, (C15_propagate_idempotent [] _ gsP rankP _ _ gsP_ranked gsP_named gsP_run gsP_run2).1,
     (C15_propagate_idempotent [] _ gsP rankP _ _ gsP_ranked gsP_named gsP_run gsP_run2).2,
     C15_propagate [] _ gsP rankP _ _ gsP_ranked gsP_named (by decide) gsP_run gsP_run2⟩
+
+
+/-- **C15 (anchor propagation, mark-ligature promotion)**: `promotionWrong` finds nothing in the filter's output: every
+    included composite with a ligature name made only of mark glyphs has a component of minimal squared distance (of its
+    bounds' lower-left corner to the origin) whose base's anchors it all carries, and carries no other names. -/
+theorem C15_propagate_promotion (marks : List String) (incl : String → Bool) (gs : GlyphSet) (rank : String → Nat) (st : FState)
+    (hr : Ranked gs rank) (hn : Named gs) (hnd : gs.names.Nodup)
+    (h : runFilter (propagateStep bnd marks) incl gs = .ok st) : promotionWrong bnd marks incl gs st.gs = [] := by
+  obtain ⟨_, hnames, _⟩ := runFilter_propagate_inv marks incl gs rank st hr hn h
+  unfold promotionWrong
+  rw [List.map_eq_nil_iff, List.filter_eq_nil_iff]
+  intro e he
+  obtain ⟨n, g'⟩ := e
+  have hn' : n ∈ gs.names := by rw [← hnames]; exact mem_map_of_mem (f := (·.1)) he
+  obtain ⟨g, hg⟩ := mem_names_get gs n hn'
+  have hg' : st.gs.get? n = some g' := get_of_mem_nodup st.gs (by rw [hnames]; exact hnd) n g' he
+  obtain ⟨added0, e0, _⟩ := propagate_placed marks incl gs rank st hr hn h n g g' hg hg'
+  have hcomps : g'.comps = g.comps := by rw [e0]
+  simp only [hg]
+  intro hall
+  simp only [Bool.and_eq_true, Bool.not_eq_eq_eq_not, Bool.not_true] at hall
+  obtain ⟨⟨⟨⟨⟨⟨hincl, hne⟩, hmk⟩, hlig⟩, hsome⟩, hbases⟩, hfail⟩ := hall
+  have hs : skipCond marks n g = false := by
+    unfold skipCond; rw [hne, Bool.false_or]; exact hmk
+  rw [hcomps] at hsome hbases
+  have hex : ∃ k ∈ g.comps, st.gs.get? k.base ≠ none := by
+    obtain ⟨k, hk, hk2⟩ := List.any_eq_true.mp hsome
+    exact ⟨k, hk, fun e => by rw [e] at hk2; cases hk2⟩
+  have hmarks : ∀ k ∈ g.comps, ∀ b, st.gs.get? k.base = some b → (b.anchors.any fun a => a.name.startsWith "_") = true := by
+    intro k hk b hb
+    have := List.all_eq_true.mp hbases k hk
+    rw [hb] at this; exact this
+  obtain ⟨k, hk, b, p, hb, hp, hmin, hcompl, added, hadd, hnames'⟩ :=
+    propagate_promoted marks incl gs rank st hr hn h n g g' hg hg' hincl hs hlig hex hmarks
+  have : (g'.comps.any fun k =>
+        match st.gs.get? k.base, bnd k with
+        | some b, some p =>
+          (g'.comps.all fun k' => match st.gs.get? k'.base, bnd k' with
+            | some _, some p' => decide (dist2 p ≤ dist2 p')
+            | some _, none => false
+            | none, _ => true) &&
+          (b.anchors.all fun ba =>
+            (g.anchors.any fun o => o.name.startsWith ba.name) ||
+            g'.anchors.any fun a => nameMatches a.name ba.name) &&
+          (g'.anchors.drop g.anchors.length).all fun a => b.anchors.any fun ba => nameMatches a.name ba.name
+        | _, _ => false) = true := by
+    rw [hcomps]
+    refine List.any_eq_true.mpr ⟨k, hk, ?_⟩
+    rw [hb, hp]
+    dsimp only
+    rw [Bool.and_eq_true, Bool.and_eq_true]
+    refine ⟨⟨?_, ?_⟩, ?_⟩
+    · rw [List.all_eq_true]
+      intro k' hk'
+      cases hb' : st.gs.get? k'.base with
+      | none => rfl
+      | some b' =>
+        obtain ⟨p', hp', hle⟩ := hmin k' hk' b' hb'
+        rw [hp']
+        exact decide_eq_true hle
+    · rw [List.all_eq_true]
+      intro ba hba
+      rw [Bool.or_eq_true]
+      rcases hcompl ba hba with h1 | ⟨a, ha, hnm⟩
+      · exact Or.inl h1
+      · exact Or.inr (List.any_eq_true.mpr ⟨a, ha, hnm⟩)
+    · rw [hadd, drop_left' rfl, List.all_eq_true]
+      intro a ha
+      obtain ⟨ba, hba, hnm⟩ := hnames' a ha
+      exact List.any_eq_true.mpr ⟨ba, hba, hnm⟩
+  exact Bool.false_ne_true (hfail.symm.trans this)
+
+/-- **C15 (anchor propagation, everything)**: `holdsPropagateP` — `holdsPropagate` plus the promotion clause — holds of the
+    model's result for every acyclic glyph set, mark list, include predicate and bounds function, whenever both runs succeed
+    (a run raises exactly when a mark-ligature composite has a component without bounds: `promoteSplit_raises`). -/
+theorem C15_propagateP (marks : List String) (incl : String → Bool) (gs : GlyphSet) (rank : String → Nat)
+    (st st2 : FState) (hr : Ranked gs rank) (hn : Named gs) (hnd : gs.names.Nodup)
+    (h : runFilter (propagateStep bnd marks) incl gs = .ok st)
+    (h2 : runFilter (propagateStep bnd marks) incl st.gs = .ok st2) :
+    holdsPropagateP bnd marks incl gs st.gs st2.modified (st2.gs == st.gs) = true := by
+  unfold holdsPropagateP
+  rw [C15_propagate marks incl gs rank st st2 hr hn hnd h h2, C15_propagate_promotion marks incl gs rank st hr hn hnd h]
+  rfl
+
+/-! ### non-vacuity of the promotion branch: `acutecomb_gravecomb` = acutecomb at (30,40) + gravecomb at (50,0) -/
+
+def lAc : Glyph := ⟨"acutecomb", 0, 0, [[⟨0, 0, some .line⟩, ⟨50, 0, some .line⟩, ⟨50, 50, some .line⟩]], [],
+  [⟨"_top", 10, 0⟩, ⟨"top", 10, 60⟩]⟩
+def lGr : Glyph := ⟨"gravecomb", 0, 0, [[⟨0, 0, some .line⟩, ⟨40, 0, some .line⟩, ⟨0, 40, some .line⟩]], [],
+  [⟨"_top", 5, 0⟩, ⟨"top", 5, 50⟩]⟩
+def kAc : Comp := ⟨"acutecomb", ⟨1, 0, 0, 1, 30, 40⟩⟩
+def kGr : Comp := ⟨"gravecomb", ⟨1, 0, 0, 1, 50, 0⟩⟩
+def lLig : Glyph := ⟨"acutecomb_gravecomb", 0, 0, [], [kAc, kGr], []⟩
+def gsL : GlyphSet := [("acutecomb_gravecomb", lLig), ("acutecomb", lAc), ("gravecomb", lGr)]
+
+theorem lb_ac : lineBounds gsL kAc = some (some (30, 40)) := by
+  simp [lineBounds, penPointsComps, penPoints, gsL, kAc, lAc, lGr, lLig, kGr, GlyphSet.get?, alookup, lowerLeft, minQ,
+    Affine.id, Affine.compose, Affine.apply]
+  constructor <;> grind
+
+
+theorem lb_gr : lineBounds gsL kGr = some (some (50, 0)) := by
+  simp [lineBounds, penPointsComps, penPoints, gsL, kAc, lAc, lGr, lLig, kGr, GlyphSet.get?, alookup, lowerLeft, minQ,
+    Affine.id, Affine.compose, Affine.apply]
+  constructor <;> grind
+
+/-- the two components' bounds corners (= `lineBounds`, see `lb_ac`, `lb_gr`): both at squared distance 2500 — a tie -/
+def bndL : Comp → Option (Q × Q) := fun k => if k = kAc then some (30, 40) else if k = kGr then some (50, 0) else none
+
+theorem gsL_order : orderedGlyphs gsL = .ok ["acutecomb_gravecomb", "acutecomb", "gravecomb"] := by
+  simp [orderedGlyphs, depthsOf, maxComponentDepth, depthGlyph, depthComps, gsL, lAc, lGr, lLig, kAc, kGr, GlyphSet.get?, alookup]
+  rw [List.mergeSort_of_pairwise (by simp)]
+  rfl
+
+def gsL' : GlyphSet := [("acutecomb_gravecomb", { lLig with anchors := [⟨"_top", 40, 40⟩, ⟨"top", 55, 50⟩] }),
+  ("acutecomb", lAc), ("gravecomb", lGr)]
+
+theorem gsL_run : runFilter (propagateStep bndL []) (fun _ => true) gsL =
+    .ok ⟨gsL', ["acutecomb_gravecomb"], ["acutecomb_gravecomb", "acutecomb", "gravecomb"]⟩ := by
+  unfold runFilter
+  rw [gsL_order]
+  have s1 : ("_top".startsWith "_") = true := by decide +kernel
+  have s2 : ("top".startsWith "_") = false := by decide +kernel
+  have hlt : ¬ ((0 - 50 : Q) * (0 - 50) + (0 - 0) * (0 - 0) < (0 - 30) * (0 - 30) + (0 - 40) * (0 - 40)) := by grind
+  have hs : sortStr ["_top", "top"] = ["_top", "top"] := by
+    unfold sortStr
+    rw [List.mergeSort_of_pairwise (by simp only [pairwise_cons, mem_singleton, forall_eq, strLe]; decide +kernel)]
+  simp [filterLoop, propagateStep, propagate, propagateComps, gsL, gsL', lAc, lGr, lLig, kAc, kGr, GlyphSet.get?, alookup, addMod,
+    GlyphSet.set, Affine.apply, getAnchorData, adjustAnchors, adSet, hs, promoteSplit, isLigatureMark, distKeys, firstMin,
+    dist2, bndL, s1, s2, hlt]
+  rw [List.mergeSort_of_pairwise (by simp only [pairwise_cons, mem_singleton, forall_eq, strLe]; decide +kernel)]
+  simp only [map_cons, map_nil]
+  congr 2 <;> (congr 1 <;> grind)
+
+def rankL (n : String) : Nat := if n = "acutecomb_gravecomb" then 1 else 0
+
+theorem gsL_cases {P : String → Glyph → Prop} (n : String) (g : Glyph) (h : gsL.get? n = some g)
+    (hl : P "acutecomb_gravecomb" lLig) (ha : P "acutecomb" lAc) (hb : P "gravecomb" lGr) : P n g := by
+  simp only [gsL, GlyphSet.get?, alookup] at h
+  split at h
+  · cases h; rename_i e; have : n = "acutecomb_gravecomb" := (by simpa using e : _ = n).symm
+    subst this; exact hl
+  · split at h
+    · cases h; rename_i e; have : n = "acutecomb" := (by simpa using e : _ = n).symm
+      subst this; exact ha
+    · split at h
+      · cases h; rename_i e; have : n = "gravecomb" := (by simpa using e : _ = n).symm
+        subst this; exact hb
+      · cases h
+
+theorem gsL_ranked : Ranked gsL rankL := by
+  intro n g h
+  refine gsL_cases (P := fun n g => ∀ k ∈ g.comps, rankL k.base < rankL n) n g h ?_ ?_ ?_
+  · intro k hk; simp only [lLig, mem_cons, not_mem_nil, or_false] at hk
+    rcases hk with rfl | rfl <;> decide
+  · intro k hk; cases hk
+  · intro k hk; cases hk
+
+theorem gsL_named : Named gsL := by
+  intro n g h
+  exact gsL_cases (P := fun n g => g.name = n) n g h rfl rfl rfl
+
+/-- non-vacuity of `C15_propagate_promotion`: a ligature of two marks whose bounds' corners are EQUALLY far from the origin
+    (30,40) / (50,0): the first one, `acutecomb`, is promoted — the composite gets its `_top` and `top`, and `top` is then
+    moved to the remaining mark component's `top` by `_adjust_anchors` -/
+example : ∃ st, runFilter (propagateStep bndL []) (fun _ => true) gsL = .ok st ∧
+    st.gs.get? "acutecomb_gravecomb" = some { lLig with anchors := [⟨"_top", 40, 40⟩, ⟨"top", 55, 50⟩] } ∧
+    promotionWrong bndL [] (fun _ => true) gsL st.gs = [] ∧ propagateWrong gsL st.gs = [] :=
+  ⟨_, gsL_run, rfl, C15_propagate_promotion [] _ gsL rankL _ gsL_ranked gsL_named (by decide) gsL_run,
+    C15_propagate_placed [] _ gsL rankL _ gsL_ranked gsL_named (by decide) gsL_run⟩
 
 end Ufo2ft.C15
